@@ -5,8 +5,9 @@
 #   usage: try_mutant.sh <patch.diff> <Cxx> [<Cyy> ...]
 set -e
 PATCH=$(readlink -f "$1"); shift
-WT=/tmp/mut_apply
-COPY=/tmp/verif_mut
+SLOT=${MUT_SLOT:-0}
+WT=/tmp/mut_apply_$SLOT
+COPY=/tmp/verif_mut_$SLOT
 [ -d $WT ] || git -C /repo worktree add -q $WT HEAD
 git -C $WT checkout -q -- . ; git -C $WT clean -fdq
 git -C $WT reset -q --hard $(git -C /repo rev-parse HEAD)
